@@ -72,12 +72,18 @@ class IClass:
 
 _class_ids = itertools.count(1)
 _obj_ids = itertools.count(1)
+_serial = itertools.count(1)
+
+
+def next_serial():
+    return next(_serial)
 
 
 def reset_ids():
-    global _class_ids, _obj_ids
+    global _class_ids, _obj_ids, _serial
     _class_ids = itertools.count(1)
     _obj_ids = itertools.count(1)
+    _serial = itertools.count(1)
 
 
 class IObject:
@@ -85,6 +91,7 @@ class IObject:
         self.cls = cls
         self.fields = {}
         self.oid = next(_obj_ids)
+        self.serial = next(_serial)
 
     def __repr__(self):
         return "<%s #%d>" % (self.cls.name, self.oid)
@@ -172,6 +179,7 @@ class Native:
 class IList:
     def __init__(self, items=None):
         self.items = list(items) if items is not None else []
+        self.serial = next(_serial)
 
     def __repr__(self):
         return "IList(%r)" % (self.items,)
@@ -182,6 +190,7 @@ class IDict:
     interpreter objects compared by identity)."""
     def __init__(self, d=None):
         self.d = dict(d) if d is not None else {}
+        self.serial = next(_serial)
 
     def __repr__(self):
         return "IDict(%r)" % (self.d,)
